@@ -984,8 +984,7 @@ def explainCheck (toks : List String) : String :=
       -- (2) every location reproduces the symptoms
       let bad := explained.findSome? fun (v, _, locs) =>
         (locs.zipIdx).findSome? fun (l, i) =>
-          let r := checkLoc c shape cs.qubits v l
-          if r == "ok" then none else some (s!"{r} error={strOfBits v} location={i}")
+          (checkLoc c shape cs.qubits v l).map fun r => s!"{r} error={strOfBits v} location={i}"
       match bad with
       | some r => r
       | none => "ok"
